@@ -211,7 +211,7 @@ pub fn run(ctx: &Ctx) -> Outcome {
     }
 
     // all bit vectors up to max_bits, walking patterns above
-    let max_bits = ctx.tier.pick(19usize, 24usize);
+    let max_bits = ctx.tier.pick(19usize, 26usize);
     let mut bit_cases: u64 = 0;
     for n in 0..=max_bits {
         let total = 1u64 << n;
